@@ -275,7 +275,7 @@ func TestC04(t *testing.T) {
 	if thorough() {
 		n, ml = 3000, 4
 	}
-	for ci, cfg := range []string{"sha", "alt"} {
+	for ci, cfg := range []string{"sha", "alt", "zwin"} {
 		withCfg(cfg, func(h tree.HashFn) {
 			if ci == 0 {
 				exhaustiveHistories(out, cfg, h, ml, nil)
@@ -349,6 +349,10 @@ func TestC06(t *testing.T) {
 		sharingHistories(out, "sha!", h, 650)
 		randomHistories(out, "rand", "sha!", h, 600, n, func(g *gen) *histGen { return &histGen{g: g, r: g.r, memos: true, snaps: true} })
 	})
+	// the same with a hash function whose roots are mostly zero bytes
+	withCfg("zwin", func(h tree.HashFn) {
+		randomHistories(out, "randz", "zwin!", h, 660, n/2, func(g *gen) *histGen { return &histGen{g: g, r: g.r, memos: true, snaps: true} })
+	})
 }
 
 // C07: hash counts.  first request (not compared: constructors share nodes), second
@@ -360,7 +364,7 @@ func TestC07(t *testing.T) {
 	if thorough() {
 		n = 6000
 	}
-	for ci, cfg := range []string{"sha", "alt"} {
+	for ci, cfg := range []string{"sha", "alt", "zwin"} {
 		withCfg(cfg, func(h tree.HashFn) {
 			g := &gen{r: newRng(int64(700 + ci)), noBool: true, maxElem: 12}
 			for k := 0; k < n; k++ {
